@@ -96,6 +96,7 @@ fn mutspec_str(m: &MutSpec) -> String {
         MutKind::IterMutRev => "itermutrev",
         MutKind::FmtMut => "fmtmut",
         MutKind::CstrFmtMut => "cstrfmtmut",
+        MutKind::TryWithMut => "trywithmut",
     };
     let extra = match m.extra {
         MutExtra::None => "none".to_string(),
@@ -126,6 +127,7 @@ fn mutspec_parse(s: &str) -> Option<MutSpec> {
         "itermutrev" => MutKind::IterMutRev,
         "fmtmut" => MutKind::FmtMut,
         "cstrfmtmut" => MutKind::CstrFmtMut,
+        "trywithmut" => MutKind::TryWithMut,
         _ => return None,
     };
     let extra = if p[4] == "none" {
